@@ -309,7 +309,9 @@ def schedule(jobs, pool, harness_dir, logdir):
         r['mem_class'] = cls
         with lock:
             results.append(r)
-        log('  [%s] %-44s %6.0fs %5.1fGB %s %s' % (r['status'], h['name'], r.get('wall_s', 0), r.get('peak_gb', 0), cls, r.get('detail', '')[:120]))
+        verdict = (r.get('rec') or {}).get('verdict') or ''
+        nfail = sum(1 for c in (r.get('rec') or {}).get('checks', []) if c['status'] == 'FAILURE')
+        log('  [%s] %-44s %6.0fs %5.1fGB %s %s%s %s' % (r['status'], h['name'], r.get('wall_s', 0), r.get('peak_gb', 0), cls, verdict, (' (%d failed checks)' % nfail) if nfail else '', r.get('detail', '')[:120]))
 
     while pending or running:
         running = [(t, h) for (t, h) in running if t.is_alive()]
